@@ -304,3 +304,181 @@ func c15upd(run *Run) {
 	}
 	cluster.SetSubsetBuildMode(cluster.SubsetPreIndexBuildMode)
 }
+
+// c15relabel: re-labelling through the REAL cluster manager.  One cluster with subset balancing (both build modes);
+// every publication goes through UpdateClusterHosts (NewSimpleHostHandler) with the SAME addresses and labels changed
+// in one of the shapes {key added, key removed, value changed, superset then value change of the added key, subset,
+// unchanged}.  The oracle tracks the PUBLISHED labels per address (not the host object's own Metadata()): every query
+// must be answered from them.
+func c15relabel(run *Run) {
+	r := run.R
+	cm := cluster.NewClusterManagerSingleton(nil, nil, nil)
+	sels := [][]string{{"k1"}, {"k2"}, {"k3"}, {"k1", "k2"}, {"k1", "k3"}, {"k2", "k3"}, {"k1", "k2", "k3"}}
+	seq := 0
+	for hix := 0; hix < run.N(80, 800); hix++ {
+		mode := []cluster.SubsetBuildMode{cluster.SubsetPreIndexBuildMode, cluster.SubsetFilterBuildMode}[hix%2]
+		cluster.SetSubsetBuildMode(mode)
+		pol := uint8(r.Intn(3))
+		dflt := map[string]string{}
+		if r.Bool() {
+			dflt[ssKeys[r.Intn(3)]] = ssVals[r.Intn(3)]
+		}
+		name := fmt.Sprintf("c15relabel-%d", hix%2)
+		if err := cm.AddOrUpdatePrimaryCluster(v2.Cluster{Name: name, ClusterType: v2.SIMPLE_CLUSTER, LbType: v2.LB_ROUNDROBIN,
+			LBSubSetConfig: v2.LBSubsetConfig{FallBackPolicy: pol, DefaultSubset: dflt, SubsetSelectors: sels}}); err != nil {
+			fmt.Println("cluster error", err)
+			return
+		}
+		n := 2 + r.Intn(3)
+		addrs := make([]string, n)
+		labels := make([]map[string]string, n) // PUBLISHED labels per address
+		for i := range addrs {
+			seq++
+			addrs[i] = fmt.Sprintf("10.27.%d.%d:%d", (seq>>8)&255, seq&255, 1000+(seq>>16))
+			labels[i] = map[string]string{}
+			for _, k := range ssKeys[:3] {
+				if r.Pct(45) {
+					labels[i][k] = ssVals[r.Intn(3)]
+				}
+			}
+		}
+		if hix < 2 { // scripted: a label key is ADDED (nothing removed or changed), then only its value changes
+			labels[0] = map[string]string{"k1": "a"}
+		}
+		var log []string
+		failedSig := map[string]bool{}
+		fail := func(sig, what string, rep interface{}) {
+			if !failedSig[sig] {
+				failedSig[sig] = true
+				run.Fail(sig, what, rep)
+			}
+		}
+		contains := func(m, c map[string]string) bool {
+			for k, v := range c {
+				if mv, ok := m[k]; !ok || mv != v {
+					return false
+				}
+			}
+			return true
+		}
+		for step := 0; step < 5; step++ {
+			shape := "initial"
+			if step > 0 {
+				i := r.Intn(n)
+				shape = []string{"key-added", "key-removed", "value-changed", "unchanged", "key-added", "subset"}[r.Intn(6)]
+				if hix < 2 {
+					i, shape = 0, []string{"", "key-added", "added-key-value-changed", "key-added", "value-changed"}[step]
+				}
+				m := map[string]string{}
+				for k, v := range labels[i] {
+					m[k] = v
+				}
+				var absent, present []string
+				for _, k := range ssKeys[:3] {
+					if _, ok := m[k]; ok {
+						present = append(present, k)
+					} else {
+						absent = append(absent, k)
+					}
+				}
+				switch shape {
+				case "key-added":
+					if len(absent) > 0 {
+						m[absent[r.Intn(len(absent))]] = ssVals[r.Intn(3)]
+					}
+				case "key-removed":
+					if len(present) > 0 {
+						delete(m, present[r.Intn(len(present))])
+					}
+				case "value-changed", "added-key-value-changed":
+					if len(present) > 0 {
+						k := present[len(present)-1]
+						m[k] = ssVals[(ssValNo(m[k]))%3] // the next value
+					}
+				case "subset":
+					for _, k := range present {
+						if r.Bool() {
+							delete(m, k)
+						}
+					}
+				}
+				labels[i] = m
+				shape = fmt.Sprintf("%s addr%d", shape, i)
+			}
+			var cfgs []v2.Host
+			for i, a := range addrs {
+				m := map[string]string{}
+				for k, v := range labels[i] {
+					m[k] = v
+				}
+				cfgs = append(cfgs, v2.Host{HostConfig: v2.HostConfig{Address: a, Weight: 1}, MetaData: api.Metadata(m)})
+			}
+			cm.UpdateClusterHosts(name, cfgs)
+			log = append(log, fmt.Sprintf("publish (%s) %v", shape, labels))
+			snap := cm.GetClusterSnapshot(context.Background(), name)
+			rep := map[string]interface{}{"part": "relabel", "build_mode": mode, "fallback_policy": pol, "default_subset": dflt, "history": append([]string{}, log...)}
+			idOf := map[string]int{}
+			for i, a := range addrs {
+				idOf[a] = i
+			}
+			// the live host set must report the published labels
+			snap.HostSet().Range(func(h types.Host) bool {
+				i := idOf[h.AddressString()]
+				if fmt.Sprint(map[string]string(h.Metadata())) != fmt.Sprint(labels[i]) {
+					fail("lb:hostset:stale-host-attributes:metadata", fmt.Sprintf("address #%d is published with labels %v, the live host reports %v; history: %s", i, labels[i], h.Metadata(), strings.Join(log, " ; ")), rep)
+				}
+				return true
+			})
+			lb := snap.LoadBalancer()
+			for q := 0; q < 5; q++ {
+				c := map[string]string{}
+				src := labels[r.Intn(n)]
+				if hix < 2 {
+					src = labels[0]
+				}
+				for _, k := range ssKeys[:3] {
+					if v, ok := src[k]; ok && (q == 0 || r.Pct(70)) {
+						c[k] = v
+					}
+				}
+				if len(c) == 0 {
+					continue
+				}
+				mmc := router.NewMetadataMatchCriteriaImpl(c)
+				seen := map[int]bool{}
+				for k := 0; k < 2*n+3; k++ {
+					if h := lb.ChooseHost(&ssCtx{lbCtx: lbCtx{ctx: variable.NewVariableContext(context.Background())}, mmc: mmc}); h != nil {
+						seen[idOf[h.AddressString()]] = true
+					}
+				}
+				var want []int
+				for i := 0; i < n; i++ {
+					if contains(labels[i], c) {
+						want = append(want, i)
+					}
+				}
+				run.Count(fmt.Sprintf("relabel|%d|%d|%d", hix, step, q), step > 0, "subset-relabel:queries")
+				// every selector over k1..k3 is configured, all hosts are healthy: the subset applies iff some published labels match
+				if len(want) > 0 {
+					var got []int
+					for i := 0; i < n; i++ {
+						if seen[i] {
+							got = append(got, i)
+						}
+					}
+					if fmt.Sprint(got) != fmt.Sprint(want) || lb.HostNum(mmc) != len(want) || !lb.IsExistsHosts(mmc) {
+						fail("subset:stale-labels-after-host-update", fmt.Sprintf("criteria %v: hosts reached %v (HostNum %d, exists %v), the published labels select %v; history: %s", c, got, lb.HostNum(mmc), lb.IsExistsHosts(mmc), want, strings.Join(log, " ; ")), rep)
+					}
+				} else {
+					for i := range seen {
+						if pol == 0 || (pol == 2 && !contains(labels[i], dflt)) {
+							fail("subset:stale-labels-after-host-update", fmt.Sprintf("criteria %v match no published labels, fallback policy %d (default %v), yet address #%d (published labels %v) was chosen; history: %s", c, pol, dflt, i, labels[i], strings.Join(log, " ; ")), rep)
+						}
+					}
+				}
+			}
+		}
+		cm.UpdateClusterHosts(name, nil)
+	}
+	cluster.SetSubsetBuildMode(cluster.SubsetPreIndexBuildMode)
+}
